@@ -8,9 +8,10 @@ import build
 t = time.time()
 build.f8c()
 seen = set()
+ready = set(open(os.path.join(os.path.dirname(HERE), "ready.txt")).read().split())
 for f in sorted(os.listdir(os.path.join(HERE, "props"))):
     m = re.fullmatch(r"(c\d+)\.py", f)
-    if not m:
+    if not m or m.group(1).upper() not in ready:
         continue
     mod = importlib.import_module("props." + m.group(1))
     for p in getattr(mod, "PROBES", []):
